@@ -4,7 +4,7 @@ from gen_frames import frame_spec, hexbytes
 
 PROP = "C16"
 COQ_FILE = "props/C16.v"
-THEOREMS = ["C16_roundtrip", "C16_read_total"]
+THEOREMS = ["C16_roundtrip", "C16_read_total", "C16_crc_hd", "C16_frame_flips_rejected"]
 TRUSTED = []
 ASSUMPTIONS = [
     "model/Codec.v is a hand transcription of src/frame/serial/{mod,build,crc}.rs; tied by the codec correspondence stream",
@@ -47,6 +47,25 @@ def streams(seed, tier):
             body += hexbytes(r, r.choice([0, 4, 5, 9, 10, 19, 20, 21, 1466, 1467, r.randrange(0, 64)])).replace("-", "")
             add("readfix", ["readfix " + body])
     return [dict(stream="codec", mode="codec", cases=cases, hist=hist)]
+
+
+def search_streams(seed):
+    """After a proof break: 1..4-bit patterns that the CRC now in /repo would not detect (tools/crc_search.py,
+    computed from the table in the source), each to be replayed on the implementation."""
+    import subprocess, shutil, sys, os
+    here = os.path.dirname(os.path.abspath(__file__))
+    py = shutil.which("python3-vt") or sys.executable
+    spec = [0, 1, 2, 3, 4]
+    try:
+        out = subprocess.run([py, os.path.join(here, "..", "crc_search.py"), "/repo"] + [str(x) for x in spec],
+                             capture_output=True, text=True, timeout=300).stdout
+    except Exception:
+        return []
+    cases = []
+    for line in out.splitlines():
+        if line.startswith("flip "):
+            cases.append(("crcpat%03d" % len(cases), ["%s | syn %s" % (line.strip(), " ".join(map(str, spec)))]))
+    return [dict(stream="codec", mode="codec", cases=cases, hist={"crcpat": len(cases)})] if cases else []
 
 
 def oracle(case_name, ops, out):
